@@ -29,6 +29,8 @@ import (
 	"connectrpc.com/conformance/internal/verifharness/gen"
 	"golang.org/x/net/http2"
 	"golang.org/x/net/http2/h2c"
+	"google.golang.org/protobuf/encoding/protojson"
+	"google.golang.org/protobuf/proto"
 	"google.golang.org/protobuf/types/known/anypb"
 )
 
@@ -57,6 +59,7 @@ func init() {
 	})
 	gen.RegisterOp("c17", "rawresp", func(_ *gen.Ctx, raw json.RawMessage) any { return c17RawResp(gen.Into[c17RawRespIn](raw)) })
 	gen.RegisterOp("c17", "rawreq", func(_ *gen.Ctx, raw json.RawMessage) any { return c17RawReq(gen.Into[c17RawReqIn](raw)) })
+	gen.RegisterOp("c17", "rawsrv", func(_ *gen.Ctx, raw json.RawMessage) any { return c17RawSrv(gen.Into[c17RawSrvIn](raw)) })
 }
 
 // ---------------------------------------------------------------- line formats
@@ -136,6 +139,7 @@ type c17Param struct {
 	Base64 bool        `json:"base64"`
 }
 type c17RawReqIn struct {
+	Proto   string     `json:"proto"` // h1 (default) | h2c: what the transport behind the sender speaks
 	Verb    string     `json:"verb"`
 	URI     string     `json:"uri"`
 	Headers []c17Hdr   `json:"headers"`
@@ -147,12 +151,38 @@ type c17RawReqIn struct {
 type c17RawReqOut struct {
 	Err     string   `json:"err,omitempty"`
 	Method  string   `json:"method"`
+	Target  string   `json:"target"` // the request target as it arrived (request line / :path), verbatim
 	Path    string   `json:"path"`
 	Query   []c17Hdr `json:"query"`
 	Headers []c17Hdr `json:"headers"`
 	Body    string   `json:"body"`
 	Drained bool     `json:"drained"`
 	Oracle  []c17Enc `json:"oracle"`
+}
+
+// rawsrv: a raw response definition served by the complete reference server (createServer in
+// reference mode: CORS -> raw responder -> checks -> connect-go mux with the raw-response
+// recorder), asked for by a Connect RPC whose response definition carries it.
+type c17RawSrvIn struct {
+	Proto    string   `json:"proto"`  // h1 | h2c
+	Proc     string   `json:"proc"`   // Unary | ServerStream | ClientStream
+	Codec    string   `json:"codec"`  // proto | json
+	Origin   string   `json:"origin"` // Origin header of the request ("" = none): makes CORS add Access-Control-* headers
+	Status   uint32   `json:"status"`
+	Headers  []c17Hdr `json:"headers"`
+	Trailers []c17Hdr `json:"trailers"`
+	Body     c17Body  `json:"body"`
+}
+type c17RawSrvOut struct {
+	Err      string   `json:"err,omitempty"`
+	Status   int      `json:"status"`
+	Headers  []c17Hdr `json:"headers"`
+	Body     string   `json:"body"`
+	Trailers []c17Hdr `json:"trailers"`
+	// Base: the headers of the same exchange for the same definition without headers and trailers:
+	// what the stack in front of the raw responder (and net/http) puts there on its own
+	Base   []c17Hdr `json:"base"`
+	Oracle []c17Enc `json:"oracle"`
 }
 
 func c17Contents(p *c17Payload) *conformancev1.MessageContents {
@@ -350,10 +380,124 @@ func c17RawResp(in c17RawRespIn) c17RawRespOut {
 	return out
 }
 
+// ---------------------------------------------------------------- raw response from the complete reference server
+
+var c17Real struct {
+	once sync.Once
+	addr map[string]string
+	err  error
+}
+
+func c17StartReal() {
+	c17Real.addr = map[string]string{}
+	for p, v := range map[string]int32{"h1": 1, "h2c": 2} {
+		addr, err := referenceserver.VerifC17StartReal(v)
+		if err != nil {
+			c17Real.err = err
+			return
+		}
+		c17Real.addr[p] = addr
+	}
+}
+
+func c17Marshal(codec string, m proto.Message) []byte {
+	var b []byte
+	var err error
+	if codec == "json" {
+		b, err = protojson.Marshal(m)
+	} else {
+		b, err = proto.Marshal(m)
+	}
+	if err != nil {
+		panic(err)
+	}
+	return b
+}
+
+func c17Envelope(b []byte) []byte {
+	out := make([]byte, 5, 5+len(b))
+	out[1], out[2], out[3], out[4] = byte(len(b)>>24), byte(len(b)>>16), byte(len(b)>>8), byte(len(b))
+	return append(out, b...)
+}
+
+// c17RawExchange asks the real server for raw with one RPC and reads the response like a plain
+// HTTP client.
+func c17RawExchange(in c17RawSrvIn, raw *conformancev1.RawHTTPResponse, name string) (status int, hdr, trl http.Header, body []byte, err error) {
+	var payload []byte
+	contentType := "application/" + in.Codec
+	switch in.Proc {
+	case "Unary":
+		payload = c17Marshal(in.Codec, &conformancev1.UnaryRequest{ResponseDefinition: &conformancev1.UnaryResponseDefinition{RawResponse: raw}})
+	case "ClientStream":
+		contentType = "application/connect+" + in.Codec
+		payload = append(c17Envelope(c17Marshal(in.Codec, &conformancev1.ClientStreamRequest{ResponseDefinition: &conformancev1.UnaryResponseDefinition{RawResponse: raw}})),
+			c17Envelope(c17Marshal(in.Codec, &conformancev1.ClientStreamRequest{RequestData: []byte("more")}))...)
+	case "ServerStream":
+		contentType = "application/connect+" + in.Codec
+		payload = c17Envelope(c17Marshal(in.Codec, &conformancev1.ServerStreamRequest{ResponseDefinition: &conformancev1.StreamResponseDefinition{RawResponse: raw}}))
+	default:
+		return 0, nil, nil, nil, fmt.Errorf("unknown procedure %q", in.Proc)
+	}
+	ctx, cancel := context.WithTimeout(context.Background(), 60*time.Second)
+	defer cancel()
+	req, err := http.NewRequestWithContext(ctx, http.MethodPost, "http://"+c17Real.addr[in.Proto]+"/connectrpc.conformance.v1.ConformanceService/"+in.Proc, bytes.NewReader(payload))
+	if err != nil {
+		return 0, nil, nil, nil, err
+	}
+	req.Header.Set("Content-Type", contentType)
+	req.Header.Set("Connect-Protocol-Version", "1")
+	req.Header.Set("X-Test-Case-Name", name)
+	if in.Origin != "" {
+		req.Header.Set("Origin", in.Origin)
+	}
+	client := c17H1
+	if in.Proto == "h2c" {
+		client = c17H2
+	}
+	resp, err := client.Do(req)
+	if err != nil {
+		return 0, nil, nil, nil, err
+	}
+	defer resp.Body.Close()
+	body, err = io.ReadAll(resp.Body)
+	return resp.StatusCode, resp.Header, resp.Trailer, body, err
+}
+
+func c17RawSrv(in c17RawSrvIn) c17RawSrvOut {
+	c17SrvOnce.Do(c17StartServer) // the plain clients
+	c17Real.once.Do(c17StartReal)
+	out := c17RawSrvOut{Oracle: c17Oracle(c17BodyPayloads(in.Body)), Headers: []c17Hdr{}, Trailers: []c17Hdr{}, Base: []c17Hdr{}}
+	if c17Real.err != nil {
+		out.Err = "start: " + c17Real.err.Error()
+		return out
+	}
+	if _, ok := c17Real.addr[in.Proto]; !ok {
+		out.Err = "unknown proto"
+		return out
+	}
+	raw := &conformancev1.RawHTTPResponse{StatusCode: in.Status}
+	c17RawBody(in.Body, raw)
+	// what the stack sends on its own for this request and this body
+	_, base, _, _, err := c17RawExchange(in, raw, "C17/raw response, no headers")
+	if err != nil {
+		out.Err = "baseline: " + err.Error()
+		return out
+	}
+	out.Base = c17CanonHeader(base)
+	raw.Headers, raw.Trailers = c17Headers(in.Headers), c17Headers(in.Trailers)
+	status, hdr, trl, body, err := c17RawExchange(in, raw, "C17/raw response")
+	if err != nil {
+		out.Err = "exchange: " + err.Error()
+		return out
+	}
+	out.Status, out.Headers, out.Trailers, out.Body = status, c17CanonHeader(hdr), c17CanonHeader(trl), gen.Hex(body)
+	return out
+}
+
 // ---------------------------------------------------------------- raw request against a recording server
 
 type c17Recorded struct {
-	method, path, rawQuery string
+	method, target, path, rawQuery string
 	header                 http.Header
 	body                   []byte
 }
@@ -365,13 +509,14 @@ var (
 )
 
 func c17StartRecorder() {
-	srv := httptest.NewServer(http.HandlerFunc(func(w http.ResponseWriter, req *http.Request) {
+	srv := httptest.NewUnstartedServer(h2c.NewHandler(http.HandlerFunc(func(w http.ResponseWriter, req *http.Request) {
 		body, _ := io.ReadAll(req.Body)
 		if ch, ok := c17RecReg.Load(req.Header.Get("X-Verif-Id")); ok {
-			ch.(chan c17Recorded) <- c17Recorded{req.Method, req.URL.Path, req.URL.RawQuery, req.Header.Clone(), body}
+			ch.(chan c17Recorded) <- c17Recorded{req.Method, req.RequestURI, req.URL.Path, req.URL.RawQuery, req.Header.Clone(), body}
 		}
 		w.WriteHeader(200)
-	}))
+	}), &http2.Server{}))
+	srv.Start()
 	c17RecURL = srv.URL
 }
 
@@ -416,7 +561,11 @@ func c17RawReq(in c17RawReqIn) c17RawReqOut {
 	tracked := &c17TrackedBody{Reader: bytes.NewReader(origBody)}
 	orig, _ := http.NewRequest(http.MethodPost, c17RecURL+"/stub/path?stub=1", tracked)
 	orig.Header.Set("X-Stub", "1")
-	rt := referenceclient.VerifC17RawRequestSender(c17H1.Transport, raw)
+	transport := c17H1.Transport
+	if in.Proto == "h2c" {
+		transport = c17H2.Transport
+	}
+	rt := referenceclient.VerifC17RawRequestSender(transport, raw)
 	resp, err := rt.RoundTrip(orig)
 	if err != nil {
 		out.Err = "roundtrip"
@@ -425,16 +574,14 @@ func c17RawReq(in c17RawReqIn) c17RawReqOut {
 	_, _ = io.Copy(io.Discard, resp.Body)
 	resp.Body.Close()
 	rec := <-ch
-	out.Method, out.Path, out.Body = rec.method, rec.path, gen.Hex(rec.body)
-	// query as the server parses it (values hex, keys sorted)
-	if q, err := url.ParseQuery(rec.rawQuery); err == nil {
-		for k, vs := range q {
-			out.Query = append(out.Query, c17Hdr{N: k, V: c18HexAll(vs)})
-		}
-		sort.Slice(out.Query, func(i, j int) bool { return out.Query[i].N < out.Query[j].N })
-	} else {
-		out.Err = "query"
+	out.Method, out.Target, out.Path, out.Body = rec.method, rec.target, rec.path, gen.Hex(rec.body)
+	// query as the server parses it (values hex, keys sorted; pairs net/url cannot parse are
+	// skipped here - the request target is reported verbatim as well)
+	q, _ := url.ParseQuery(rec.rawQuery)
+	for k, vs := range q {
+		out.Query = append(out.Query, c17Hdr{N: k, V: c18HexAll(vs)})
 	}
+	sort.Slice(out.Query, func(i, j int) bool { return out.Query[i].N < out.Query[j].N })
 	out.Headers = c17CanonHeader(rec.header)
 	// the stub's request is drained and closed asynchronously
 	for i := 0; i < 2000 && !(tracked.closed.Load() && tracked.eof.Load()); i++ {
@@ -697,22 +844,28 @@ func runC17(c *gen.Ctx) error {
 			Body: c17Body{Kind: "unary", Unary: &c17Payload{Kind: "text", Data: hello, Comp: 1}}, Handler: []c17Hdr{}, Pre: []c17OpJ{}, Post: []c17OpJ{}})
 	}
 	c.DoParallel("rawresp", jobs, 8)
-	// ---- (e) raw requests against a recording server
+	// ---- (e) raw requests against a recording server (HTTP/1.1 and h2c alternately)
 	jobs = nil
 	nReq := 600
 	if th {
 		nReq = 6000
 	}
 	for i := 0; i < nReq; i++ {
-		in := c17RawReqIn{Verb: gen.Pick(r, []string{"POST", "POST", "GET", "PUT", "DELETE", "PATCH"}),
-			URI:     gen.Pick(r, []string{"/a/b", "/x.Service/Method", "/p?q=1", "/p?q=1&r=2", "/", "/a%20b"}),
+		in := c17RawReqIn{Proto: "h1", Verb: gen.Pick(r, []string{"POST", "POST", "GET", "PUT", "DELETE", "PATCH"}),
+			URI:     gen.Pick(r, []string{"/a/b", "/x.Service/Method", "/p?q=1", "/p?q=1&r=2", "/", "/a%20b", "/p?z=1&a=2", "/p?q=1&message=m&q=0"}),
 			Headers: c17RandHdrs(r, []string{"X-Req-A", "x-req-b", "Content-Type", "X-REQ-A", "Accept-Encoding"}, 4),
 			RawQ:    []c17Hdr{}, EncQ: []c17Param{}, Body: c17RandBody(r, false), Orig: gen.Hex(r.Bytes(r.Intn(3000)))}
+		if i%2 == 1 {
+			in.Proto = "h2c"
+		}
 		if in.Verb == "GET" || in.Verb == "DELETE" {
 			in.Body = c17Body{Kind: "none"}
 		}
 		for k := r.Intn(3); k > 0; k-- {
 			in.RawQ = append(in.RawQ, c17Hdr{N: gen.Pick(r, []string{"q", "message", "b", "a b"}), V: []string{gen.Pick(r, []string{"1", "x y", "a&b=c", "é", ""})}})
+		}
+		if r.Chance(1, 20) { // a listed parameter without values: the URI is still rebuilt
+			in.RawQ = append(in.RawQ, c17Hdr{N: "novalue", V: []string{}})
 		}
 		for k := r.Intn(3); k > 0; k-- {
 			p := c17RandPayload(r)
@@ -721,8 +874,88 @@ func runC17(c *gen.Ctx) error {
 			}
 			in.EncQ = append(in.EncQ, c17Param{N: gen.Pick(r, []string{"message", "enc", "q"}), Value: p, Base64: r.Bool()})
 		}
+		if len(in.RawQ) > 0 || len(in.EncQ) > 0 {
+			e.Count("kind:rawreq-merged-query")
+		} else {
+			e.Count("kind:rawreq-no-extra-params")
+		}
+		jobs = append(jobs, in)
+	}
+	// ---- (f) a URI that carries its own query string and no extra parameters: it is the request
+	//      target, verbatim - whatever order, escaping, bare keys or unparsable pairs it has
+	pairs := []string{"b=2", "a=1", "message=e30", "encoding=json", "connect=v1", "compression=gzip", "base64=1", "q=x%20y", "q=x+y", "flag", "flag=", "=v",
+		"a=1", "message=%ZZ", "k=a;b", "x=%2F%2f", "a=%41", "a==b", "", "z", "Z=z", "m=e%", "tilde=~", "star=*", "q=a,b", "q=(1)", "q='1'", "q=a:b@c/d?e"}
+	nVerb := 400
+	if th {
+		nVerb = 4000
+	}
+	for i := 0; i < nVerb; i++ {
+		n := r.Range(1, 5)
+		if i < len(pairs) {
+			n = 1
+		}
+		qs := make([]string, n)
+		for k := range qs {
+			qs[k] = gen.Pick(r, pairs)
+		}
+		if i < len(pairs) {
+			qs[0] = pairs[i]
+		}
+		in := c17RawReqIn{Proto: "h1", Verb: gen.Pick(r, []string{"POST", "GET", "GET", "PUT"}),
+			URI:     gen.Pick(r, []string{"/a/b", "/connectrpc.conformance.v1.ConformanceService/IdempotentUnary", "/p", "/", "/a%20b"}) + "?" + strings.Join(qs, "&"),
+			Headers: c17RandHdrs(r, []string{"X-Req-A", "Content-Type"}, 2),
+			RawQ:    []c17Hdr{}, EncQ: []c17Param{}, Body: c17Body{Kind: "none"}, Orig: gen.Hex(r.Bytes(r.Intn(100)))}
+		if i%2 == 1 {
+			in.Proto = "h2c"
+		}
+		if in.Verb == "POST" || in.Verb == "PUT" {
+			in.Body = c17RandBody(r, false)
+		}
+		e.Count("kind:rawreq-inline-query-verbatim")
 		jobs = append(jobs, in)
 	}
 	c.DoParallel("rawreq", jobs, 8)
+	// ---- (g) raw responses from the complete reference server (createServer, reference mode): the
+	//      raw responder works behind CORS, which has already set Vary (always) and, for a request
+	//      with an Origin, Access-Control-Allow-Origin / -Allow-Credentials / -Expose-Headers;
+	//      the definitions list headers of those very names as well as others
+	jobs = nil
+	nSrv := 500
+	if th {
+		nSrv = 5000
+	}
+	corsNames := []string{"Vary", "vary", "Access-Control-Expose-Headers", "Access-Control-Allow-Origin", "access-control-allow-credentials",
+		"Access-Control-Allow-Methods", "Access-Control-Max-Age"}
+	srvNames := append(append([]string{}, corsNames...), "X-Raw-A", "x-raw-b", "Content-Type", "X-RAW-A")
+	srvVals := []string{"Accept-Encoding", "Connect-Protocol-Version", "Origin", "*", "X-Custom", "true", "false", "https://other.example", "a, b", "application/json", "GET"}
+	for i := 0; i < nSrv; i++ {
+		in := c17RawSrvIn{Proto: "h1", Proc: gen.Pick(r, []string{"Unary", "Unary", "ServerStream", "ClientStream"}), Codec: gen.Pick(r, []string{"proto", "json"}),
+			Origin: gen.Pick(r, []string{"", "https://verif.example", "http://localhost:8080"}),
+			Status: gen.Pick(r, []uint32{0, 200, 200, 201, 400, 404, 415, 500, 503}), Body: c17RandBody(r, false)}
+		if i%2 == 1 {
+			in.Proto = "h2c"
+		}
+		for _, p := range c17BodyPayloads(in.Body) {
+			if p != nil && p.Kind == "any" { // protojson needs the message type of an Any
+				in.Codec = "proto"
+			}
+		}
+		in.Headers = make([]c17Hdr, r.Range(1, 4))
+		for k := range in.Headers {
+			names := srvNames
+			if k == 0 && i%3 != 2 {
+				names = corsNames
+			}
+			vs := make([]string, r.Range(1, 3))
+			for j := range vs {
+				vs[j] = gen.Pick(r, srvVals)
+			}
+			in.Headers[k] = c17Hdr{N: gen.Pick(r, names), V: vs}
+		}
+		in.Trailers = c17SameSpelling(c17RandHdrs(r, c17TrlNames, 2))
+		e.Count("kind:rawsrv-" + in.Proc)
+		jobs = append(jobs, in)
+	}
+	c.DoParallel("rawsrv", jobs, 8)
 	return nil
 }
